@@ -139,27 +139,62 @@ __CPROVER_ensures(__CPROVER_return_value == VF_GOST_ROTL(vf_gost_t(vf_g_sbox, sr
 ;
 #endif
 
-/* ---- one block: 32-Z, 32-R, 16-Z cycles on words ---- */
+#endif /* !VF_REPLAY (pure predicates follow: also used by the native replay oracles) */
+/* ---- one block: 32-Z, 32-R, 16-Z cycles on words ----
+ * -DVF_G_ABSTRACT_BLOCK (proofs about buffers of blocks): the three cycles are uninterpreted
+ * functions of their data arguments on BOTH sides (the replaced gost28147_block_encrypt /
+ * _decrypt / gost28147_mac_block and the spec); the key words and the S-box are constant
+ * throughout such a proof (no contract involved lists ctx->key as assignable).  What is
+ * proved that way holds for every block function, in particular for the real ones, which
+ * equal the spec's cycles by the gost.block.* jobs. */
+#if defined(VF_G_ABSTRACT_BLOCK) && !defined(VF_REPLAY)
+uint64_t __CPROVER_uninterpreted_vf_g_enc(uint32_t n1, uint32_t n2);
+uint64_t __CPROVER_uninterpreted_vf_g_dec(uint32_t n1, uint32_t n2);
+uint64_t __CPROVER_uninterpreted_vf_g_mac(uint32_t m1, uint32_t m2, uint32_t d1, uint32_t d2);
+static inline void
+vf_g_enc_words(const uint32_t k[8], const uint8_t *sbox, uint32_t n1, uint32_t n2, uint32_t *o1, uint32_t *o2) {
+	uint64_t r = __CPROVER_uninterpreted_vf_g_enc(n1, n2);
+	(void)k; (void)sbox;
+	*o1 = (uint32_t)r; *o2 = (uint32_t)(r >> 32);
+}
+static inline void
+vf_g_dec_words(const uint32_t k[8], const uint8_t *sbox, uint32_t n1, uint32_t n2, uint32_t *o1, uint32_t *o2) {
+	uint64_t r = __CPROVER_uninterpreted_vf_g_dec(n1, n2);
+	(void)k; (void)sbox;
+	*o1 = (uint32_t)r; *o2 = (uint32_t)(r >> 32);
+}
+static inline void
+vf_g_mac_words(const uint32_t k[8], const uint8_t *sbox, uint32_t *m1, uint32_t *m2, uint32_t d1, uint32_t d2) {
+	uint64_t r = __CPROVER_uninterpreted_vf_g_mac(*m1, *m2, d1, d2);
+	(void)k; (void)sbox;
+	*m1 = (uint32_t)r; *m2 = (uint32_t)(r >> 32);
+}
+#else
+#define vf_g_enc_words	vf_gost_encrypt_words
+#define vf_g_dec_words	vf_gost_decrypt_words
+#define vf_g_mac_words	vf_gost_mac_words
+#endif
 static inline _Bool
 vf_g_enc_ok(const uint32_t k[8], const uint8_t *sbox, uint32_t n1, uint32_t n2, uint32_t r1, uint32_t r2) {
 	uint32_t o1, o2;
-	vf_gost_encrypt_words(k, sbox, n1, n2, &o1, &o2);
+	vf_g_enc_words(k, sbox, n1, n2, &o1, &o2);
 	return (o1 == r1 && o2 == r2);
 }
 static inline _Bool
 vf_g_dec_ok(const uint32_t k[8], const uint8_t *sbox, uint32_t n1, uint32_t n2, uint32_t r1, uint32_t r2) {
 	uint32_t o1, o2;
-	vf_gost_decrypt_words(k, sbox, n1, n2, &o1, &o2);
+	vf_g_dec_words(k, sbox, n1, n2, &o1, &o2);
 	return (o1 == r1 && o2 == r2);
 }
 static inline _Bool
 vf_g_mac_ok(const uint32_t k[8], const uint8_t *sbox, uint32_t m1, uint32_t m2, uint32_t d1, uint32_t d2,
     uint32_t r1, uint32_t r2) {
-	vf_gost_mac_words(k, sbox, &m1, &m2, d1, d2);
+	vf_g_mac_words(k, sbox, &m1, &m2, d1, d2);
 	return (m1 == r1 && m2 == r2);
 }
 
-#ifdef VF_G_ABSTRACT_ROUND
+#ifndef VF_REPLAY
+#if defined(VF_G_ABSTRACT_ROUND) || defined(VF_G_ABSTRACT_BLOCK)
 #define VF_G_CTX_REQUIRES								\
 	__CPROVER_requires(__CPROVER_w_ok(ctx, sizeof(gost28147_context_t)))		\
 	__CPROVER_requires(__CPROVER_r_ok(vf_g_sbox, 128))
@@ -194,5 +229,115 @@ __CPROVER_ensures(vf_g_mac_ok(ctx->key, vf_g_sbox, __CPROVER_old(ctx->mac[0]), _
     n1, n2, ctx->mac[0], ctx->mac[1]))
 ;
 
+
+/* ---- buffers of blocks ---- */
+#ifndef VF_G_MAX_BLOCKS
+#define VF_G_MAX_BLOCKS	(((size_t)1) << 56)
+#endif
+static const uint8_t vf_g_zero8[8] = { 0 };
+static size_t vf_g_b;	/* ghost block index (any value) */
+
+#endif /* !VF_REPLAY */
+/* one block on bytes.  LE family (RFC 5830): N1 = bytes 0..3 little-endian, N2 = bytes 4..7,
+ * output the same way.  BE family (RFC 8891): a = a1 || a0 big-endian, N1 = a0 = bytes 4..7,
+ * N2 = a1 = bytes 0..3, output b1 || b0 the same way. */
+static inline _Bool
+vf_g_block8_ok(const uint32_t k[8], const uint8_t *sbox, _Bool decrypt, _Bool be,
+    uint8_t i0, uint8_t i1, uint8_t i2, uint8_t i3, uint8_t i4, uint8_t i5, uint8_t i6, uint8_t i7,
+    const uint8_t *out) {
+	uint8_t in[8] = { i0, i1, i2, i3, i4, i5, i6, i7 };
+	uint32_t n1, n2, o1, o2;
+	unsigned t;
+	_Bool ok = 1;
+	if (!be) {
+		n1 = vf_gost_le32(in);
+		n2 = vf_gost_le32(in + 4);
+	} else {
+		n1 = vf_g_be32(in + 4);
+		n2 = vf_g_be32(in);
+	}
+	if (decrypt)
+		vf_g_dec_words(k, sbox, n1, n2, &o1, &o2);
+	else
+		vf_g_enc_words(k, sbox, n1, n2, &o1, &o2);
+	for (t = 0; t < 4; t ++) {
+		ok = ok && (out[t] == (be ? vf_g_be_byte(o2, t) : vf_g_le_byte(o1, t)));
+		ok = ok && (out[4 + t] == (be ? vf_g_be_byte(o1, t) : vf_g_le_byte(o2, t)));
+	}
+	return (ok);
+}
+#ifndef VF_REPLAY
+/* source byte t of block vf_g_b at entry (0 when the block index is out of range) */
+#define VF_G_SRC_OLD(t)	__CPROVER_old(((vf_g_b < blocks_count) ? src : vf_g_zero8)		\
+			    [(vf_g_b < blocks_count) ? GOST28147_BLK_SIZE * vf_g_b + (t) : (t)])
+
+#define VF_G_BLOCKS_CONTRACT(fn, decrypt, be)						\
+static inline void fn(gost28147_context_p ctx, const uint8_t *src, size_t blocks_count, uint8_t *dst) \
+VF_G_CTX_REQUIRES									\
+__CPROVER_requires(blocks_count <= VF_G_MAX_BLOCKS)					\
+__CPROVER_requires(blocks_count == 0 || __CPROVER_r_ok(src, GOST28147_BLK_SIZE * blocks_count)) \
+__CPROVER_requires(blocks_count == 0 || __CPROVER_w_ok(dst, GOST28147_BLK_SIZE * blocks_count)) \
+__CPROVER_assigns(blocks_count != 0: __CPROVER_object_upto(dst, GOST28147_BLK_SIZE * blocks_count)) \
+/* ECB: every output block is the cipher applied to the input block at the same position */ \
+__CPROVER_ensures(vf_g_b < blocks_count ==> vf_g_block8_ok(ctx->key, vf_g_sbox, decrypt, be,	\
+    VF_G_SRC_OLD(0), VF_G_SRC_OLD(1), VF_G_SRC_OLD(2), VF_G_SRC_OLD(3),		\
+    VF_G_SRC_OLD(4), VF_G_SRC_OLD(5), VF_G_SRC_OLD(6), VF_G_SRC_OLD(7),		\
+    dst + GOST28147_BLK_SIZE * vf_g_b))							\
+;
+VF_G_BLOCKS_CONTRACT(gost28147_blocks_encrypt, 0, 0)
+VF_G_BLOCKS_CONTRACT(gost28147_blocks_decrypt, 1, 0)
+VF_G_BLOCKS_CONTRACT(gost28147_blocks_encrypt_be, 0, 1)
+VF_G_BLOCKS_CONTRACT(gost28147_blocks_decrypt_be, 1, 1)
+
+#endif /* !VF_REPLAY */
+/* MAC accumulator after absorbing n blocks (RFC 5830 section 6: accumulator ^= block, 16-Z, repeat) */
+static inline _Bool
+vf_g_macs_ok(const uint32_t k[8], const uint8_t *sbox, _Bool be, uint32_t m1, uint32_t m2,
+    const uint8_t *src, size_t n, uint32_t r1, uint32_t r2) {
+	size_t b;
+	for (b = 0; b < n; b ++) {
+		const uint8_t *p = src + GOST28147_BLK_SIZE * b;
+		if (!be)
+			vf_g_mac_words(k, sbox, &m1, &m2, vf_gost_le32(p), vf_gost_le32(p + 4));
+		else
+			vf_g_mac_words(k, sbox, &m1, &m2, vf_g_be32(p + 4), vf_g_be32(p));
+	}
+	return (m1 == r1 && m2 == r2);
+}
+#ifndef VF_REPLAY
+#define VF_G_MAC_CONTRACT(fn, be)							\
+static inline void fn(gost28147_context_p ctx, const uint8_t *src, size_t blocks_count)	\
+VF_G_CTX_REQUIRES									\
+__CPROVER_requires(blocks_count <= VF_G_MAX_BLOCKS)					\
+__CPROVER_requires(blocks_count == 0 || __CPROVER_r_ok(src, GOST28147_BLK_SIZE * blocks_count)) \
+__CPROVER_assigns(blocks_count != 0: ctx->mac[0], ctx->mac[1])				\
+__CPROVER_ensures(vf_g_macs_ok(ctx->key, vf_g_sbox, be, __CPROVER_old(ctx->mac[0]), __CPROVER_old(ctx->mac[1]), \
+    src, blocks_count, ctx->mac[0], ctx->mac[1]))					\
+;
+VF_G_MAC_CONTRACT(gost28147_blocks_mac, 0)
+VF_G_MAC_CONTRACT(gost28147_blocks_mac_be, 1)
+
+/* ---- gost28147_final / gost28147_final_be: MAC bytes out, context wiped ---- */
+#ifndef VF_G_MAX_MAC
+#define VF_G_MAX_MAC	((size_t)1 << 56)
+#endif
+static size_t vf_g_m;	/* ghost byte index */
+#define VF_G_FINAL_CONTRACT(fn, be)							\
+static inline void fn(gost28147_context_p ctx, uint8_t *mac, size_t mac_size)		\
+__CPROVER_requires(__CPROVER_w_ok(ctx, sizeof(gost28147_context_t)))			\
+__CPROVER_requires(mac_size <= VF_G_MAX_MAC)						\
+__CPROVER_requires(mac == NULL || mac_size == 0 || __CPROVER_w_ok(mac, mac_size))	\
+__CPROVER_assigns(__CPROVER_object_upto(ctx, sizeof(gost28147_context_t)))		\
+__CPROVER_assigns(mac != NULL && mac_size != 0: __CPROVER_object_upto(mac, mac_size))	\
+/* bytes 0..7: N1 then N2 (little-endian words resp. big-endian words), zero padding after */ \
+__CPROVER_ensures((mac != NULL && vf_g_m < mac_size && vf_g_m < 8) ==>			\
+    mac[vf_g_m] == ((be) ? vf_g_be_byte(vf_g_m < 4 ? __CPROVER_old(ctx->mac[0]) : __CPROVER_old(ctx->mac[1]), (unsigned)(vf_g_m & 3)) \
+		       : vf_g_le_byte(vf_g_m < 4 ? __CPROVER_old(ctx->mac[0]) : __CPROVER_old(ctx->mac[1]), (unsigned)(vf_g_m & 3)))) \
+__CPROVER_ensures((mac != NULL && vf_g_m < mac_size && vf_g_m >= 8) ==> mac[vf_g_m] == 0)	\
+/* key material wiped */								\
+__CPROVER_ensures(vf_g_i < sizeof(gost28147_context_t) ==> ((const uint8_t *)ctx)[vf_g_i] == 0) \
+;
+VF_G_FINAL_CONTRACT(gost28147_final, 0)
+VF_G_FINAL_CONTRACT(gost28147_final_be, 1)
 #endif /* !VF_REPLAY */
 #endif
